@@ -1,5 +1,6 @@
 import CppUModel.Gen.MockEquals
 import CppUModel.Proofs.MockValue
+import CppUModel.Model.MockNamedValueList
 /-!
 # C09 — mock parameter values compare by mathematical value, symmetrically
 
@@ -14,6 +15,7 @@ namespace Mock
 open Gen.MockEquals
 
 set_option maxRecDepth 4000
+set_option linter.unusedSimpArgs false
 
 /-- the table (type name, union member, C type) extracted from the `setValue` overloads is the one
     the value type `MVal` and its readers were written for -/
@@ -273,6 +275,271 @@ theorem getter_same_type (x : BitVec 32) (y : BitVec 64) :
     getUnsignedLongLongIntValueGen, MVal.type_, MVal.longIntValue_, MVal.intValue_, MVal.unsignedIntValue_,
     MVal.unsignedLongIntValue_, MVal.longLongIntValue_, MVal.unsignedLongLongIntValue_]
 
+/-! ## the platform predicates the double class model rests on -/
+
+/-- `isnan` / `isinf` of the double itself and libc's `fabs`, as wired in src/Platforms/Gcc/UtestPlatform.cpp -/
+theorem platform_predicates_as_modelled : Gen.MockEquals.platformPredicates = modelledPlatformPredicates := by decide
+
+/-! ## every setter stores the right type name and its argument; reading back through the getter of the same type
+
+`Gen.MockEquals.setters` is regenerated from the `setValue` / `setMemoryBuffer` overloads (the translator also checks
+that the stored payload is the argument itself); the constructors of `MVal` are the setters' model. -/
+
+/-- for every supported C++ argument type: (type name, union member, argument type) is what the source does, the
+    model value carries that type name, and the getter of the same type returns exactly what was stored -/
+theorem stored_value_roundtrip :
+    (("bool", "boolValue_", "bool") ∈ setters ∧ ∀ b, (MVal.bool b).type_ = "bool" ∧ getBoolValueGen (.bool b) = .ok b) ∧
+    (("int", "intValue_", "int") ∈ setters ∧ ∀ v, (MVal.int v).type_ = "int" ∧ getIntValueGen (.int v) = .ok v) ∧
+    (("unsigned int", "unsignedIntValue_", "unsigned int") ∈ setters ∧
+      ∀ v, (MVal.uint v).type_ = "unsigned int" ∧ getUnsignedIntValueGen (.uint v) = .ok v) ∧
+    (("long int", "longIntValue_", "long") ∈ setters ∧
+      ∀ v, (MVal.long v).type_ = "long int" ∧ getLongIntValueGen (.long v) = .ok v) ∧
+    (("unsigned long int", "unsignedLongIntValue_", "unsigned long") ∈ setters ∧
+      ∀ v, (MVal.ulong v).type_ = "unsigned long int" ∧ getUnsignedLongIntValueGen (.ulong v) = .ok v) ∧
+    (("long long int", "longLongIntValue_", "long long") ∈ setters ∧
+      ∀ v, (MVal.llong v).type_ = "long long int" ∧ getLongLongIntValueGen (.llong v) = .ok v) ∧
+    (("unsigned long long int", "unsignedLongLongIntValue_", "unsigned long long") ∈ setters ∧
+      ∀ v, (MVal.ullong v).type_ = "unsigned long long int" ∧ getUnsignedLongLongIntValueGen (.ullong v) = .ok v) ∧
+    (("double", "doubleValue_value", "double") ∈ setters ∧ ("double", "doubleValue_tolerance", "double") ∈ setters ∧
+      ∀ v t, (MVal.dbl v t).type_ = "double" ∧ getDoubleValueGen (.dbl v t) = .ok v ∧ getDoubleToleranceGen (.dbl v t) = .ok t) ∧
+    (("const char*", "stringValue_", "const char *") ∈ setters ∧
+      ∀ s, (MVal.str s).type_ = "const char*" ∧ getStringValueGen (.str s) = .ok s) ∧
+    (("void*", "pointerValue_", "void *") ∈ setters ∧
+      ∀ a, (MVal.ptr a).type_ = "void*" ∧ getPointerValueGen (.ptr a) = .ok a) ∧
+    (("const void*", "constPointerValue_", "const void *") ∈ setters ∧
+      ∀ a, (MVal.cptr a).type_ = "const void*" ∧ getConstPointerValueGen (.cptr a) = .ok a) ∧
+    (("void (*)()", "functionPointerValue_", "void (*)()") ∈ setters ∧
+      ∀ a, (MVal.fptr a).type_ = "void (*)()" ∧ getFunctionPointerValueGen (.fptr a) = .ok a) ∧
+    (("const unsigned char*", "memoryBufferValue_", "const unsigned char *") ∈ setters ∧
+      ∀ b, (MVal.mem b).type_ = "const unsigned char*" ∧ getMemoryBufferGen (.mem b) = .ok b ∧
+        getSizeGen (.mem b) = .ok (BitVec.ofNat 64 b.length)) := by
+  refine ⟨⟨by decide, ?_⟩, ⟨by decide, ?_⟩, ⟨by decide, ?_⟩, ⟨by decide, ?_⟩, ⟨by decide, ?_⟩, ⟨by decide, ?_⟩, ⟨by decide, ?_⟩,
+    ⟨by decide, by decide, ?_⟩, ⟨by decide, ?_⟩, ⟨by decide, ?_⟩, ⟨by decide, ?_⟩, ⟨by decide, ?_⟩, ⟨by decide, ?_⟩⟩ <;>
+  intros <;>
+  simp [MVal.type_, getBoolValueGen, getIntValueGen, getUnsignedIntValueGen, getLongIntValueGen, getUnsignedLongIntValueGen,
+    getLongLongIntValueGen, getUnsignedLongLongIntValueGen, getDoubleValueGen, getDoubleToleranceGen, getStringValueGen,
+    getPointerValueGen, getConstPointerValueGen, getFunctionPointerValueGen, getMemoryBufferGen, getSizeGen,
+    MVal.boolValue_, MVal.longIntValue_, MVal.intValue_, MVal.unsignedIntValue_, MVal.unsignedLongIntValue_,
+    MVal.longLongIntValue_, MVal.unsignedLongLongIntValue_, MVal.doubleValue_value, MVal.doubleValue_tolerance,
+    MVal.stringValue_, MVal.pointerValue_, MVal.constPointerValue_, MVal.functionPointerValue_, MVal.memoryBufferValue_,
+    MVal.size_]
+
+/-- object values: the type name given, the pointer given, through either object getter -/
+theorem stored_object_roundtrip (ty : String) (a : Nat) (c : Option (Nat → Nat → Bool)) :
+    (MVal.obj ty a c).type_ = ty ∧ getObjectPointerGen (.obj ty a c) = .ok a ∧
+    getConstObjectPointerGen (.obj ty a c) = .ok a := by
+  simp [MVal.type_, getObjectPointerGen, getConstObjectPointerGen, MVal.objectPointerValue_, MVal.constObjectPointerValue_]
+
+/-- `setObjectPointer` / `setConstObjectPointer`: type and pointer as given; the comparator is the one the default
+    repository has for the type at that moment, none without a default repository -/
+theorem setObjectPointer_stores (repo : Option Repo) (sem : Nat → Nat → Nat → Bool) (ty : String) (p : Nat) :
+    (setObjectPointer repo sem ty p).type_ = ty ∧
+    getObjectPointerGen (setObjectPointer repo sem ty p) = .ok p ∧
+    (setObjectPointer repo sem ty p).comparator_ = (match repo with
+      | none => none
+      | some r => (r.getComparatorForType ty).map sem) := by
+  cases repo <;>
+    simp [setObjectPointer, lookupForType, MVal.type_, getObjectPointerGen, MVal.objectPointerValue_, MVal.comparator_]
+
+/-- a typed getter of a non-integer type succeeds on values of exactly its own type (`getConstPointerValue`,
+    which reads `pointerValue_`, still returns the stored `const void*`) -/
+theorem typed_getter_own_type_only (v : MVal) (hw : v.WF) :
+    (∀ b, getBoolValueGen v = .ok b → v = .bool b) ∧
+    (∀ s, getStringValueGen v = .ok s → v = .str s) ∧
+    (∀ a, getPointerValueGen v = .ok a → v = .ptr a) ∧
+    (∀ a, getConstPointerValueGen v = .ok a → v = .cptr a) ∧
+    (∀ a, getFunctionPointerValueGen v = .ok a → v = .fptr a) ∧
+    (∀ b, getMemoryBufferGen v = .ok b → v = .mem b) := by
+  cases v
+  case obj ty a c =>
+    have e := obj_type_beq_false ty a c hw
+    simp only [getBoolValueGen, getStringValueGen, getPointerValueGen, getConstPointerValueGen, getFunctionPointerValueGen,
+      getMemoryBufferGen, e "bool" (by decide), e "const char*" (by decide), e "void*" (by decide),
+      e "const void*" (by decide), e "void (*)()" (by decide), e "const unsigned char*" (by decide),
+      Bool.false_eq_true, if_false, reduceCtorEq, false_implies, implies_true, and_self]
+  all_goals
+    simp [getBoolValueGen, getStringValueGen, getPointerValueGen, getConstPointerValueGen, getFunctionPointerValueGen,
+      getMemoryBufferGen, MVal.type_, MVal.boolValue_, MVal.stringValue_, MVal.pointerValue_, MVal.constPointerValue_,
+      MVal.functionPointerValue_, MVal.memoryBufferValue_]
+  all_goals (intros; simp_all)
+
+/-! ## compatibleForCopying -/
+
+theorem compatibleForCopying_iff (a b : MVal) :
+    compatibleForCopyingGen a b = true ↔ a.type_ = b.type_ ∨ (a.type_ = "const void*" ∧ b.type_ = "void*") := by
+  unfold compatibleForCopyingGen
+  by_cases h : a.type_ = b.type_
+  · simp [h]
+  · by_cases h2 : a.type_ = "const void*" ∧ b.type_ = "void*"
+    · simp [h, h2.1, h2.2]
+    · simp only [beq_iff_eq, h, if_false, Bool.and_eq_true, h2, false_or]; simp
+
+/-- a `void*` may be copied into a `const void*` slot, not the other way round -/
+theorem compatibleForCopying_cptr_ptr (x y : Nat) :
+    compatibleForCopyingGen (.cptr x) (.ptr y) = true ∧ compatibleForCopyingGen (.ptr x) (.cptr y) = false := by
+  simp [compatibleForCopyingGen, MVal.type_]
+
+/-! ## toString: the text shown in failure messages -/
+
+/-- integers: decimal of the denoted integer, a blank, the hexadecimal two's-complement pattern at the type's own
+    width in brackets (`-1` as `int` is `-1 (0xffffffff)`, as `long` `-1 (0xffffffffffffffff)`) -/
+theorem toString_integer (env : Env) (v : MVal) (hv : v.isInt = true) :
+    ∃ d, denote? v = some d ∧ toStringGen env v = integerText d v.width := by
+  cases v <;> simp [MVal.isInt] at hv <;> rename_i x <;> refine ⟨_, rfl, ?_⟩ <;>
+    simp [toStringGen, MVal.type_, MVal.width, integerText, MVal.longIntValue_, MVal.intValue_, MVal.unsignedIntValue_,
+      MVal.unsignedLongIntValue_, MVal.longLongIntValue_, MVal.unsignedLongLongIntValue_,
+      StringFrom_int, StringFrom_uint, StringFrom_long, StringFrom_ulong, StringFrom_llong, StringFrom_ullong,
+      BracketsFormattedHexStringFrom_int, BracketsFormattedHexStringFrom_uint, BracketsFormattedHexStringFrom_long,
+      BracketsFormattedHexStringFrom_ulong, BracketsFormattedHexStringFrom_llong, BracketsFormattedHexStringFrom_ullong,
+      bracketsHex, decInt_ofNat] <;>
+    congr 1 <;>
+    first
+      | exact toNat_eq_toInt_emod32 x
+      | exact toNat_eq_toInt_emod64 x
+      | (have := x.isLt; omega)
+
+theorem toString_bool (env : Env) (b : Bool) :
+    toStringGen env (.bool b) = ascii (if b then "true" else "false") := by
+  cases b <;> simp [toStringGen, MVal.type_, MVal.boolValue_, StringFrom_bool]
+
+/-- strings are shown as they are (NULL as the empty string) -/
+theorem toString_str (env : Env) (s : Option Bytes) : toStringGen env (.str s) = cstrContent s := by
+  cases s <;> simp [toStringGen, MVal.type_, MVal.stringValue_, simpleStringOfCStr, cstrContent]
+
+/-- memory buffers of at most 128 bytes: `Size = n | HexContents = ` and the blank-separated upper-case hex bytes -/
+theorem toString_mem_small (env : Env) (b : Bytes) (h : b.length ≤ 128) :
+    toStringGen env (.mem b) =
+      ascii "Size = " ++ decNat b.length ++ ascii " | HexContents = " ++
+        List.intercalate [32] (b.map hex2U) := by
+  have h1 : (BitVec.ofNat 64 b.length).toNat = b.length := by
+    simp only [BitVec.toNat_ofNat]; exact Nat.mod_eq_of_lt (by omega)
+  have h2 : ((BitVec.ofNat 64 b.length).setWidth 32).toNat = b.length := by
+    simp only [BitVec.toNat_setWidth, h1]; exact Nat.mod_eq_of_lt (by omega)
+  have h3 : ¬ (b.length > 128) := by omega
+  have h4 : b.length % 4294967296 = b.length := Nat.mod_eq_of_lt (by omega)
+  simp [toStringGen, MVal.type_, MVal.memoryBufferValue_, MVal.size_, StringFromBinaryWithSizeOrNull,
+    StringFromBinaryWithSize, h1, h2, h3, h4, stringFromBinary_eq b b.length (Nat.le_refl _)]
+
+/-- longer buffers: the first 128 bytes, then ` ...`; the size is shown modulo 2^32 (`(unsigned) size`) -/
+theorem toString_mem_large (env : Env) (b : Bytes) (h : 128 < b.length) (hs : SizeOk b) :
+    toStringGen env (.mem b) =
+      ascii "Size = " ++ decNat (b.length % 4294967296) ++ ascii " | HexContents = " ++
+        List.intercalate [32] ((b.take 128).map hex2U) ++ ascii " ..." := by
+  have h1 : (BitVec.ofNat 64 b.length).toNat = b.length := toNat_ofNat64_length b hs
+  have h2 : ((BitVec.ofNat 64 b.length).setWidth 32).toNat = b.length % 4294967296 := by
+    simp only [BitVec.toNat_setWidth, h1]
+  have h3 : b.length > 128 := h
+  simp [toStringGen, MVal.type_, MVal.memoryBufferValue_, MVal.size_, StringFromBinaryWithSizeOrNull,
+    StringFromBinaryWithSize, h1, h2, h3, stringFromBinary_eq b 128 (by omega)]
+
+/-- doubles: the two special texts, otherwise libc's `%.6g` rendering (an input) -/
+theorem toString_dbl (env : Env) (x : Float) (n : Bool) (t : D Float) :
+    toStringGen env (.dbl .nan t) = ascii "Nan - Not a number" ∧
+    toStringGen env (.dbl (.inf n) t) = ascii "Inf - Infinity" ∧
+    toStringGen env (.dbl (.fin x) t) = env.g6 := by
+  simp [toStringGen, MVal.type_, MVal.doubleValue_value, StringFrom_double]
+
+/-- pointers of the three kinds: `0x` and the lower-case hexadecimal machine address -/
+theorem toString_pointer (env : Env) (a : Nat) :
+    toStringGen env (.ptr a) = ascii "0x" ++ hexNat (env.addrOf a) ∧
+    toStringGen env (.cptr a) = ascii "0x" ++ hexNat (env.addrOf a) ∧
+    toStringGen env (.fptr a) = ascii "0x" ++ hexNat (env.addrOf a) := by
+  simp [toStringGen, MVal.type_, MVal.pointerValue_, MVal.constPointerValue_, MVal.functionPointerValue_,
+    StringFrom_constVoidPtr, StringFrom_fnPtr]
+
+/-- custom objects: the comparator's text, or the "No comparator found" message naming the type -/
+theorem toString_obj (env : Env) (ty : String) (hty : ty ∉ builtinTypeNames) (a : Nat) (f : Nat → Nat → Bool) :
+    toStringGen env (.obj ty a (some f)) = env.valueToString a ∧
+    toStringGen env (.obj ty a none) =
+      ascii "No comparator found for type: \"" ++ ascii ty ++ ascii "\"" := by
+  simp [builtinTypeNames] at hty
+  simp [toStringGen, MVal.type_, MVal.comparator_, MVal.constObjectPointerValue_, hty]
+
+/-! ## names -/
+
+/-- a fresh value has the given name and holds the `int` 0; `setName` replaces the name only (NULL = empty) -/
+theorem name_roundtrip (n : Bytes) (m : Option Bytes) :
+    (NamedValue.new n).getName = n ∧ (NamedValue.new n).val = .int 0 ∧
+    ((NamedValue.new n).setName m).getName = cstrContent m ∧ ((NamedValue.new n).setName m).val = .int 0 := by
+  cases m <;> simp [NamedValue.new, NamedValue.getName, NamedValue.setName, simpleStringOfCStr, cstrContent]
+
+/-! ## MockNamedValueList: insertion order, the FIRST value of a name wins -/
+
+theorem list_add_appends {α} (l : NList α) (x : Bytes × α) : l.add x = l ++ [x] := nlist_add_eq_append l x
+
+/-- adding never changes the answer for a name that is already present: the first added value wins, a later one
+    with the same name is unreachable through `getValueByName` -/
+theorem list_first_added_wins {α} (l : NList α) (name : Bytes) (a : α) (x : Bytes × α)
+    (h : l.getValueByName name = some a) : (l.add x).getValueByName name = some a := by
+  rw [nlist_add_eq_append, nlist_get_append, h]
+
+/-- … and for a name not yet present the new value is found exactly when its name compares equal -/
+theorem list_add_new {α} (l : NList α) (name : Bytes) (x : Bytes × α) (h : l.getValueByName name = none) :
+    (l.add x).getValueByName name = if simpleStringEq x.1 name then some x.2 else none := by
+  rw [nlist_add_eq_append, nlist_get_append, h]
+  simp [NList.getValueByName]
+
+/-- the value found is the first one in insertion order whose name compares equal -/
+theorem list_get_first_match {α} (l1 l2 : NList α) (n name : Bytes) (a : α)
+    (h1 : ∀ y ∈ l1, simpleStringEq y.1 name = false) (h2 : simpleStringEq n name = true) :
+    (l1 ++ (n, a) :: l2).getValueByName name = some a := by
+  induction l1 with
+  | nil => simp [NList.getValueByName, h2]
+  | cons y t ih =>
+    have hy := h1 y (by simp)
+    simp only [List.cons_append, NList.getValueByName, hy]
+    exact ih (fun z hz => h1 z (by simp [hz]))
+
+theorem list_clear_empty {α} (l : NList α) (name : Bytes) : l.clear.getValueByName name = none := rfl
+
+/-! ## the comparator / copier repository: the LATEST install of a name wins; importing reverses -/
+
+theorem repo_install_comparator_shadows (r : Repo) (name : String) (c : Nat) :
+    (r.installComparator name c).getComparatorForType name = some c := by
+  simp [Repo.installComparator, Repo.getComparatorForType]
+
+theorem repo_install_comparator_other (r : Repo) (name other : String) (c : Nat) (h : name ≠ other) :
+    (r.installComparator name c).getComparatorForType other = r.getComparatorForType other ∧
+    (r.installComparator name c).getCopierForType other = r.getCopierForType other := by
+  simp [Repo.installComparator, Repo.getComparatorForType, Repo.getCopierForType, h]
+
+/-- comparators and copiers of one name do not shadow each other -/
+theorem repo_install_kinds_independent (r : Repo) (name q : String) (c : Nat) :
+    (r.installCopier name c).getComparatorForType q = r.getComparatorForType q ∧
+    (r.installComparator name c).getCopierForType q = r.getCopierForType q := by
+  simp [Repo.installCopier, Repo.installComparator, Repo.getComparatorForType, Repo.getCopierForType]
+
+theorem repo_install_copier_shadows (r : Repo) (name : String) (c : Nat) :
+    (r.installCopier name c).getCopierForType name = some c := by
+  simp [Repo.installCopier, Repo.getCopierForType]
+
+/-- `installComparatorsAndCopiers(other)` pushes the nodes of `other` head first, i.e. in REVERSED order -/
+theorem repo_import_reverses (r other : Repo) : r.installAll other = other.reverse ++ r := repo_installAll_eq r other
+
+/-- after an import the imported entries shadow the own ones, and among the imported ones the lookup order is the
+    reverse of `other`'s -/
+theorem repo_import_lookup (r other : Repo) (name : String) :
+    (r.installAll other).getComparatorForType name =
+      (match Repo.getComparatorForType other.reverse name with
+       | some c => some c
+       | none => r.getComparatorForType name) ∧
+    (r.installAll other).getCopierForType name =
+      (match Repo.getCopierForType other.reverse name with
+       | some c => some c
+       | none => r.getCopierForType name) := by
+  rw [repo_installAll_eq, repo_getComparator_append, repo_getCopier_append]; exact ⟨rfl, rfl⟩
+
+/-- consequence (behaviour of the code as it is): a name installed twice answers with the later comparator in the
+    original repository but with the EARLIER one in a repository that imported it -/
+theorem repo_import_flips_shadowing (name : String) (c1 c2 : Nat) :
+    Repo.getComparatorForType (Repo.installComparator (Repo.installComparator [] name c1) name c2) name = some c2 ∧
+    Repo.getComparatorForType
+      (Repo.installAll [] (Repo.installComparator (Repo.installComparator [] name c1) name c2)) name = some c1 := by
+  simp [Repo.installComparator, Repo.getComparatorForType, Repo.installAll]
+
+theorem repo_clear_empty (r : Repo) (name : String) :
+    r.clear.getComparatorForType name = none ∧ r.clear.getCopierForType name = none := ⟨rfl, rfl⟩
+
 /-! ## non-vacuity: concrete values on both sides of every boundary the theorems talk about -/
 
 -- −1 as int, 2^32−1 as unsigned, 2^64−1 as unsigned long: same low bits, three different integers
@@ -303,5 +570,19 @@ example : getLongLongIntValueGen (.ulong 9223372036854775808#64) = .error (.type
 example : getLongLongIntValueGen (.ulong 9223372036854775807#64) = .ok 9223372036854775807#64 := rfl
 example : getUnsignedIntValueGen (.int (-1)) = .error (.typeMismatch "unsigned int") := rfl
 example : getLongIntValueGen (.uint 4294967295#32) = .ok 4294967295#64 := rfl
+
+-- the rest of MockNamedValue
+example : toStringGen ⟨[], id, fun _ => []⟩ (.int (-1)) = ascii "-1 (0xffffffff)" := by decide
+example : toStringGen ⟨[], id, fun _ => []⟩ (.long (-1)) = ascii "-1 (0xffffffffffffffff)" := by decide
+example : toStringGen ⟨[], id, fun _ => []⟩ (.uint 255#32) = ascii "255 (0xff)" := by decide
+example : toStringGen ⟨[], id, fun _ => []⟩ (.mem [0, 255, 16]) = ascii "Size = 3 | HexContents = 00 FF 10" := by decide
+example : toStringGen ⟨[], id, fun _ => []⟩ (.mem []) = ascii "Size = 0 | HexContents = " := by decide
+example : toStringGen ⟨[], id, fun _ => []⟩ (.ptr 255) = ascii "0xff" := by decide
+example : integerText (-1) 32 = ascii "-1 (0xffffffff)" := by decide
+example : compatibleForCopyingGen (.cptr 1) (.ptr 2) = true ∧ compatibleForCopyingGen (.int 1#32) (.uint 1#32) = false := by decide
+example : NList.getValueByName (NList.add (NList.add [] ([97], 1)) ([97], 2)) [97] = some 1 := by decide
+example : NList.getValueByName (NList.add (NList.add [] ([97], 1)) ([98], 2)) [98] = some 2 := by decide
+example : Repo.getComparatorForType (Repo.installCopier (Repo.installComparator [] "T" 3) "T" 1) "T" = some 3 := by decide
+example : (setObjectPointer none (fun _ _ _ => true) "T" 5).comparator_.isNone = true := rfl
 
 end Mock
